@@ -56,7 +56,11 @@ func vfC07GenCfg(rt *rapid.T) *vfxCfg {
 func vfC07GenSize(rt *rapid.T, eff int64, label string, thorough bool) int {
 	if eff < 0 {
 		pool := []int{0, 1, 1000, 100000, 300000}
-		if thorough || rapid.IntRange(0, 9).Draw(rt, label+"-allow-huge") == 0 {
+		odds := 9
+		if thorough {
+			odds = 2
+		}
+		if rapid.IntRange(0, odds).Draw(rt, label+"-allow-huge") == 0 {
 			pool = append(pool, vfC07Default+1, 5<<20)
 		}
 		return rapid.SampledFrom(pool).Draw(rt, label+"-size-unlimited")
